@@ -14,7 +14,8 @@ LEAN_PROOF_TARGETS = ["PyroProps.C07"]
 AUDIT_FILES = ["PyroModel/Exceptions.lean", "PyroModel/Gen/C07.lean", "PyroProofs/Exceptions.lean", "PyroProps/C07.lean"]
 THEOREMS = ["Pyro.C07.C07_roundtrip_partial", "Pyro.C07.C07_roundtrip_batch_partial", "Pyro.C07.C07_roundtrip_whitelisted",
             "Pyro.C07.C07_fallback", "Pyro.C07.C07_fallback_batch", "Pyro.C07.C07_never_silent", "Pyro.C07.C07_no_hang",
-            "Pyro.C07.C07_usable_after", "Pyro.C07.C07_usable_after_batch", "Pyro.C07.C07_unknown_class",
+            "Pyro.C07.C07_usable_after", "Pyro.C07.C07_usable_after_roundtrip", "Pyro.C07.C07_usable_after_fallback",
+            "Pyro.C07.C07_usable_after_batch", "Pyro.C07.C07_unknown_class",
             "Pyro.C07.C07_roundtrip_fails_nonexception", "Pyro.C07.C07_roundtrip_fails_comm", "Pyro.C07.C07_batch_stopiteration",
             "Pyro.C07.C07_gen_whitelist_resolves", "Pyro.C07.C07_gen_whitelist_covers", "Pyro.C07.C07_gen_special",
             "Pyro.C07.C07_gen_flags_sane", "Pyro.C07.C07_gen_sendable", "Pyro.C07.C07_gen_server_shape",
@@ -348,6 +349,11 @@ def run_call(rig, cmap, c):
     from Pyro5 import client, errors
     o = Obs()
     cls, e, margs, mattrs = build_exception(cmap, c)
+    try:
+        import traceback
+        traceback.format_exception(type(e), e, None)
+    except Exception:
+        return None     # CPython's own traceback module cannot print this object (e.g. SyntaxError(x, "abcdef")): outside the domain
     o.cls, o.exc, o.margs, o.mattrs = cls, e, margs, mattrs
     o.str_exc, o.type_repr = str(e), str(type(e))
     ser = c["ser"]
@@ -711,6 +717,9 @@ def _run(ctx, name, n_extra, n_decode, do_model):
     try:
         for c in calls:
             o = run_call(rig, cmap, c)
+            if o is None:
+                ctx.count("outside-domain:exception-the-traceback-module-cannot-print")
+                continue
             derr = dump_error(c["ser"], o.exc)
             ctx.evaluations += 1
             ctx.count("kind:" + KIND_NAME[c["kind"]])
@@ -756,7 +765,10 @@ def _run(ctx, name, n_extra, n_decode, do_model):
             if m in ("unmodelled", "fuel"):
                 ctx.count("decode-model:" + m)
                 continue
-            ctx.count("decode-branch:" + (m.split("(", 1)[0] if m.startswith("err:") else m.split(":", 1)[0]))
+            if m.startswith("err:X("):
+                ctx.count("decode-branch:raises:" + R.uncps(m[6:].split(";", 1)[0]))
+            else:
+                ctx.count("decode-branch:" + ":".join(m.split(":", 2)[:2]).split("(", 1)[0][:40])
             if r != m:
                 ctx.mismatch("decode", {"case": c, "line": l[:500]}, r[:600], m[:600])
 
@@ -782,9 +794,12 @@ def replay(ctx, case):
     rig = R.Rig()
     try:
         o = run_call(rig, cmap, c)
-        derr = dump_error(c["ser"], o.exc)
+        derr = dump_error(c["ser"], o.exc) if o is not None else None
     finally:
         rig.close()
+    if o is None:
+        print("the exception of this case cannot be printed by CPython's traceback module: outside the property's domain")
+        return 0
     print("remote code raised: %s%r attrs=%r  via %s / %s" % (qual(o.cls), tuple(o.margs), o.mattrs, c["ser"], KIND_NAME[c["kind"]]))
     print("caller observed   :", "no exception, value %r" % (o.value,) if o.caught is None else
           "%s%r attrs=%r" % (qual(type(o.caught)), o.caught.args, {k: ("<traceback>" if k == "_pyroTraceback" else v)
